@@ -12,6 +12,7 @@ import (
 type VerifMemTransport struct {
 	transportBase
 	Frames [][]byte
+	Queue  uint64 // what GetSendQueueSize reports (a congested socket)
 	closed chan struct{}
 }
 
@@ -31,7 +32,7 @@ func NewVerifMemTransportURI(local, remote *defn.URI, scope defn.Scope, mtu int)
 }
 func (t *VerifMemTransport) String() string                    { return "VerifMemTransport" }
 func (t *VerifMemTransport) SetPersistency(p Persistency) bool { t.persistency = p; return true }
-func (t *VerifMemTransport) GetSendQueueSize() uint64          { return 0 }
+func (t *VerifMemTransport) GetSendQueueSize() uint64          { return t.Queue }
 func (t *VerifMemTransport) sendFrame(frame []byte) {
 	t.Frames = append(t.Frames, append([]byte(nil), frame...))
 	t.nOutBytes += uint64(len(frame)) // counted as the socket transports count
